@@ -29,8 +29,8 @@ func init() {
 		Rule:        "crash-point enumeration: a child process runs a seeded sequential workload (autocommit Set/SetReader/Create/Delete, ReadCommitted and RepeatableRead transactions with multi-key write sets, commits, rollbacks, conflicts, collector passes and worker-pool drains) on the real inline database, logging 'B i' before and 'E i <class>' after every client operation to an unbuffered file; a hook handler counts the persistent-mutation points (directory/file create/remove, every content file write and close, every Badger set/delete/transaction, the steps of Set, of the commit and of the cleaner) and kills the process with SIGKILL at the N-th. A first run without a kill learns the points; then one run per selected N. A fresh verify process opens the database, dumps GetKeys and every content, closes, opens and dumps again; further variants kill the recovery itself at its n-th mutation point and verify again, and continue writing after recovery. Oracle: with A = model state after all acknowledged operations and A' = A plus the single in-flight operation applied completely, each dump must equal A or A' exactly (keys and complete contents), both dumps must agree, every listed key must be readable. evaluations = crash runs verified; distinct_nontrivial = distinct (point name, in-flight operation kind, ordinal of the point within the operation) crash sites",
 		Assumptions: []string{"a Badger Update is atomic and durable under SIGKILL of the process (page cache survives; power loss is out of scope)", "reference model refmodel"},
 		Roles: map[string]Role{
-			"main":       {N: func(t string) int { return c04Shards * tierN(t, 2, 12) }, Case: c04Case},
-			"randomkill": {N: func(t string) int { return tierN(t, 32, 400) }, Case: c04RandomKill},
+			"main":       {N: func(t string) int { return c04Shards * tierN(t, 2, 24) }, Case: c04Case},
+			"randomkill": {N: func(t string) int { return tierN(t, 32, 1500) }, Case: c04RandomKill},
 		},
 	})
 }
@@ -601,7 +601,7 @@ func c04RandomKill(tier string, seed int64, idx int, scratch string) rt.CaseResu
 	}
 	dir := filepath.Join(scratch, "db")
 	logp := filepath.Join(scratch, "ack.log")
-	killAfter := int64(5 + rng.Intn(nclients*45))
+	killAfter := int64(5 + rng.Intn(nclients*30))
 	_, killed, clog := runCrashChild(scratch, crashSpec{Mode: "stress", Dir: dir, Clients: clients, Log: logp, KillAfterAcks: killAfter, KillDelayUs: int64(rng.Intn(3000))}, 1)
 	if !killed {
 		c.Inconclusive = append(c.Inconclusive, "stress child was not killed: "+tailStr(clog, 300))
